@@ -8,18 +8,23 @@ import Operon.Model.Wiring
   handler N raise | retnone | ret p:raw:k p:typed:dt:il:k …        register_module with a scripted handler
   ext M P raw k | ext M P typed dt il k     external_inputs[M][P] = …
   exec E                                    execute(external_inputs or None, enforce_static_checks=E); E = d: default
-  caps                                      required_capabilities()
+  caps | caps2                              required_capabilities() of the diagram / of a second diagram
+  share N                                   second_diagram.add_module(<the same ModuleSpec object as module N>)
+  mod2 N I … O … C …                        second_diagram.add_module(fresh spec)
+  capsmut K sub|add|clear c …               the caller mutates the set returned by the last caps (K=1) / caps2 (K=2)
+  speccaps N                                the capabilities attribute of module N's spec
   flow sdt sil ddt dil                      can_flow_to / require_flow_to
   cout|cin raw k pdt pil | typed dt il k pdt pil     _coerce_output / _coerce_input
 -/
 open Operon Operon.Proto Operon.Wiring
 
 inductive Script where
-  | raise
+  | raise (cls : String)
   | ret (outs : List (Nat × Val))
 
 structure DSt where
   d : Diagram := {}
+  d2 : Diagram := {}      -- a second diagram that may share ModuleSpec objects with the first
   hs : List (Nat × Script) := []
   ext : List (Nat × List (Nat × Val)) := []
 
@@ -47,7 +52,7 @@ def parseScriptEntry (t : String) : Option (Nat × Val) :=
 
 /-- the scripted handler: payloads depend on the inputs so that mis-routed values are visible -/
 def mkHandler : Script → Handler
-  | .raise => fun _ => .raise
+  | .raise _ => fun _ => .raise
   | .ret outs => fun ins =>
     let s := (ins.map (·.2.payload)).foldl (· + ·) 0
     .ret (outs.map fun (p, v) =>
@@ -67,7 +72,7 @@ def showErr (e : Err) : String :=
   if e.isWiringError then "raise:WiringError"
   else match e with
     | .keyError => "raise:KeyError"
-    | .handlerRaised => "raise:RuntimeError"
+    | .handlerRaised => "raise:handler"
     | _ => "model-out-of-fuel"
 
 def errTag : Err → String
@@ -111,8 +116,12 @@ def step (st : DSt) (toks : List String) : DSt × String :=
     ({ st with d := { modules := st.d.modules, wires := st.d.wires ++ [⟨natD a, natD p, natD b, natD q⟩] } },
      "ok ## rawwire")
   | "handler" :: n :: kind :: rest =>
+    -- xraise CLS MSG MODE SIG entries…: raises CLS (at the first invocation of an execute() or always; with the
+    -- real code a handler is invoked at most once per execute(), so both raise); retd / retv: like ret, other
+    -- call signatures
     let sc : Script := match kind with
-      | "raise" => .raise
+      | "raise" => .raise "RuntimeError"
+      | "xraise" => .raise (rest.headD "RuntimeError")
       | "retnone" => .ret []
       | _ => .ret (rest.filterMap parseScriptEntry)
     if (st.d.findMod (natD n)).isNone then (st, showErr .unknownModule ++ " ## handler:unknownModule")
@@ -130,8 +139,36 @@ def step (st : DSt) (toks : List String) : DSt × String :=
       (st, joinSp ["ok", "order=" ++ showList (recs.map (toString ·.name)), "calls=" ++ showCalls r.calls,
         "mods=" ++ showSemi (recs.map fun r => s!"{r.name}<{showTVs r.inputs}|{showTVs r.outputs}>")]
         ++ " ## exec:ok")
-    | .error e => (st, joinSp [showErr e, "calls=" ++ showCalls r.calls] ++ " ## exec:" ++ errTag e)
+    | .error e =>
+      -- the exception of a raising handler is the one of the last invocation
+      let shown := match e with
+        | .handlerRaised =>
+          (match r.calls.getLast? with
+           | some c => (match st.hs.lookup c.name with
+                        | some (.raise cls) => "raise:" ++ cls
+                        | _ => showErr e)
+           | none => showErr e)
+        | _ => showErr e
+      (st, joinSp [shown, "calls=" ++ showCalls r.calls] ++ " ## exec:" ++ errTag e)
   | ["caps"] => (st, showList ((sortNat st.d.requiredCaps).map toString) ++ " ## caps")
+  | ["caps2"] => (st, showList ((sortNat st.d2.requiredCaps).map toString) ++ " ## caps2")
+  | "capsmut" :: _ => (st, "ok ## capsmut")     -- the caller mutates the set it was handed: no effect on anything
+  | ["speccaps", n] =>
+    match st.d.findMod (natD n) with
+    | some m => (st, showList ((sortNat m.caps.eraseDups).map toString) ++ " ## speccaps")
+    | none => (st, "bad-op")
+  | ["share", n] =>
+    match st.d.findMod (natD n) with
+    | none => (st, "bad-op")
+    | some m =>
+      match st.d2.addModule m with
+      | .ok d2 => ({ st with d2 := d2 }, "ok ## share:ok")
+      | .error e => (st, showErr e ++ " ## share:" ++ errTag e)
+  | "mod2" :: n :: rest =>
+    let (ins, outs, cs) := sections rest
+    match st.d2.addModule ⟨natD n, parsePorts ins, parsePorts outs, cs.map (natD ·)⟩ with
+    | .ok d2 => ({ st with d2 := d2 }, "ok ## mod2:ok")
+    | .error e => (st, showErr e ++ " ## mod2:" ++ errTag e)
   | ["flow", sdt, sil, ddt, dil] =>
     let s : PortType := ⟨natD sdt, natD sil⟩
     let t : PortType := ⟨natD ddt, natD dil⟩
